@@ -118,3 +118,34 @@ CHECKS["C10"] = {
                     "reslicing into len < e <= cap is refused by anko (stricter than Go): that band is not compared"],
     "outside": ["multi-byte strings", "containers longer than 3", "struct field types beyond int64/string/slice"],
 }
+
+CHECKS["C07"] = {
+    "corpus": True,
+    "runs": [R("./vm", {"fn": r"^ZZ_C07_"})],
+    "expect_asserts": [r"C07\.once-and-in-order/.*", r"C07\.evaluation-stops-at-failing-operand/.*", r"C07\.short-circuit/right-only-when-needed/.*", r"C07\.defer-evaluates-operands-at-the-statement/.*"],
+    "bounds": {"callees": "15: Go functions with 0..3 fixed parameters, two variadic ones, script functions with 0..6 parameters (direct path <= 4, reflect path >= 5) and two variadic script functions",
+               "operands": "0..4 probe operands, failing operand index -1..n-1, spread of a 2-element slice", "call forms": "direct, anonymous, go, defer",
+               "other forms": "list/typed list/map literals, the three operator groups, index, in, slice, return list, multi-assignment, var; && || ?: ??"},
+    "stubs": [], "assumptions": ["the space is enumerated by forking; no payload is symbolic, the solver is not needed for these obligations"],
+    "outside": ["more than 4 operands", "x op= e and x++ (documented exception)"],
+}
+
+CHECKS["C08"] = {
+    "corpus": True,
+    "runs": [R("./vm", {"fn": r"^ZZ_C08_control_(d1|d2_lite)$"}, {"fn": r"^ZZ_C08_control_(d1|d2_b2)$", "wall_timeout": 7200})],
+    "expect_asserts": [r"C08\.probe-trace", r"C08\.error-status", r"C08\.return-value"],
+    "bounds": {"quick": "all abstract programs of depth 1 (11 statement kinds x leaf outcomes x condition truth sequences of <= 2 true evaluations x 0..2 for-in elements) and depth-2 programs over 7 kinds with one nested compound (lite)",
+               "thorough": "depth 2 with <= 2 compound statements over all 11 kinds"},
+    "stubs": [], "assumptions": ["break/continue are never placed outside a loop (the statement leaves that open)", "enumerated by forking: skeleton, outcomes and truth values are concrete per path"],
+    "outside": ["depth 3", "map iteration order (for-in over slices only)"],
+}
+
+CHECKS["C09"] = {
+    "corpus": True,
+    "runs": [R("./vm", {"fn": r"^ZZ_C09_try_defer_(d1|d2_lite)$"}, {"fn": r"^ZZ_C09_try_defer_(d1|d2_b2)$", "wall_timeout": 7200})],
+    "expect_asserts": [r"C09\.probe-trace", r"C09\.error-status"],
+    "bounds": {"quick": "as C08 plus try/catch/finally with outcomes normal/error in finally and functions with 0..2 deferred probe calls, one of which may fail",
+               "thorough": "depth 2 with <= 2 compound statements"},
+    "stubs": [], "assumptions": ["which of several deferred errors surfaces is not asserted (the statement leaves it open)"],
+    "outside": ["defer inside a loop body registered more than twice", "depth 3"],
+}
